@@ -61,7 +61,7 @@ static unsigned int step;
 static int cur_open_expected = -1;  /* message index RETR/TOP must open, -1: none */
 static int nopen_step;
 
-static unsigned char outb[OUTMAX]; static unsigned int outlen, flushed;
+static unsigned char outb[OUTMAX]; static unsigned int outlen, flushed, last_line;   /* last_line: start of the last reply line */
 static unsigned char expb[OUTMAX]; static unsigned int explen;
 
 void sym_inputs(void)
@@ -186,6 +186,7 @@ int ideal_putc(substdio *s, unsigned char c)
   CHECK(s == &ssout, "everything goes to the network stream");
   CHECK(outlen < OUTMAX, "reply fits (harness sizing)");
   ASSUME(outlen < OUTMAX);
+  if (outlen == 0 || outb[outlen - 1] == '\n') last_line = outlen;
   outb[outlen++] = c;
   return 0;
 }
@@ -217,13 +218,14 @@ void vf__exit(int status)
 {
   int i;
   CHECK(in_quit, "C19: the session ends only at QUIT");
-  CHECK(status == 0, "QUIT exits 0");
   for (i = 0; i < NM; ++i) {
     CHECK(unlinked[i] == del[i], "C19: QUIT removes exactly the messages marked with DELE");
     CHECK(renamed[i] == (!del[i] && isnew[i]), "C19: QUIT moves exactly the unmarked new/ messages to cur/");
   }
-  CHECK(outlen >= 6 && outb[outlen - 6] == '+' && outb[outlen - 5] == 'O' && outb[outlen - 4] == 'K' && flushed == outlen,
-        "QUIT is answered +OK");
+  /* reply: its last line starts with +OK - unless an unlink failed (RFC 1939 lets QUIT answer -ERR then; not compared) */
+  if (!(del[0] && unlinkfail[0]) && !(del[1] && unlinkfail[1]))
+    CHECK(outlen >= 5 && last_line + 2 < outlen && outb[last_line] == '+' && outb[last_line + 1] == 'O' && outb[last_line + 2] == 'K'
+          && flushed == outlen, "QUIT is answered +OK");
   if (LASTSTEP && del[0] && !del[1] && isnew[1]) WITNESS("quit_unlinks_1_renames_2");
   if (LASTSTEP && del[0] && del[1]) WITNESS("quit_unlinks_both");
   if (K >= 3 && !del0[0] && !del0[1] && !del[0] && !del[1] && step == K - 1 && verb[0] == V_DELE && verb[K - 2] == V_RSET) WITNESS("dele_rset_quit_keeps_all");
@@ -344,6 +346,9 @@ void vmain(void)
   }
   ASSUME(!(unlinkfail[0] && unlinkfail[1]));      /* at most one failing unlink (reply buffer sizing) */
   m = mtab; numm = NM;
+  /* take line's arena slot now: a slot taken on only some paths makes the slot index symbolic
+   * and every later access through the stralloc a 24-way case split */
+  stralloc_ready(&line, 1);
   ASSUME(last0 <= NM); last = last0;
   for (k = 0; k < K; ++k) {
     ASSUME(verb[k] < NVERB && openfail[k] <= 1);
